@@ -26,6 +26,7 @@ Section Compose.
   Variable cluster_scoped : gvk -> bool.          (* Gvk.isClusterScoped, see LegacySort.id_equals *)
   Variable pfx_fs sfx_fs : list fieldspec.        (* TransformerConfig.NamePrefix / NameSuffix *)
   Variable pfx_skip sfx_skip : list fieldspec.    (* prefixFieldSpecsToSkip / suffixFieldSpecsToSkip *)
+  Variable guarded : bool.                        (* does gvkLessThan carry the rank guard? (generated flag) *)
 
   (* shouldSkip(r.OrgId()) *)
   Definition should_skip (skip : list fieldspec) (org : rid) : bool :=
@@ -113,7 +114,7 @@ Section Compose.
     do acc <- accumulate t;
     match o with
     | SortNone | SortFifo => Ok (map r_cur acc)
-    | SortLegacy first last => Ok (sort_legacy first last (map r_cur acc))
+    | SortLegacy first last => Ok (sort_legacy_g guarded first last (map r_cur acc))
     end.
 
   (* ---------- closed form used by the theorems (ComposeProofs.v shows accumulate = this) ---------- *)
@@ -136,6 +137,13 @@ Section Compose.
     | Dir ents p s => negb (is_empty_kust (Dir ents p s)) && forallb okb ents && nocoll_b (List.concat (map flat ents))
     end.
 End Compose.
+
+(* the documents of a tree in depth-first load order: what `sortOptions: fifo` promises *)
+Fixpoint dfs_docs (t : tree) : list rid :=
+  match t with
+  | File docs => docs
+  | Dir ents _ _ => List.concat (map dfs_docs ents)
+  end.
 
 (* the metamorphic transformations of the property, on the abstract tree *)
 Definition wrap (t : tree) : tree := Dir [t] "" "".
